@@ -101,7 +101,8 @@ def n_levels(shape, voxel, target=64):
 
 def make_volume(path, spec, rng):
     """spec: shape (x,y,z[,c]), dtype, voxel (mm), kind 'noise'|'labels'|'ramp',
-    rgb (bool).  Returns the array as written (X, Y, Z[, C])."""
+    rgb (bool), scl [slope, inter] (header value scaling).  Returns the array of
+    STORED values (X, Y, Z[, C])."""
     import nibabel
     shape = tuple(spec["shape"])
     dt = np.dtype(spec["dtype"])
@@ -155,6 +156,13 @@ def make_volume(path, spec, rng):
     else:
         img = nibabel.Nifti1Image(a, affine, dtype=dt)
     nibabel.save(img, path)
+    if spec.get("scl"):
+        # header value scaling (scl_slope, scl_inter): the stored values stay `a`; the two
+        # float32 fields at byte 112 of the NIfTI-1 header are patched (uncompressed .nii)
+        import struct
+        with open(path, "r+b") as f:
+            f.seek(112)
+            f.write(struct.pack("<ff", float(spec["scl"][0]), float(spec["scl"][1])))
     return a
 
 
@@ -231,6 +239,7 @@ def hand_fullres_info(vol_spec, volume):
 class Interner:
     def __init__(self):
         self.arrays = []
+        self.raw = {}          # index -> the numpy array (for cutting chunk regions)
         self._idx = {}
 
     def add(self, arr):
@@ -242,6 +251,7 @@ class Interner:
             self.arrays.append(enc)
             k = len(self.arrays)
             self._idx[key] = k
+            self.raw[k] = np.array(arr)
         return k
 
 
@@ -329,6 +339,46 @@ def count_stored(path, key, sharding):
     return n
 
 
+def _grid(cs, size):
+    for z0 in range(0, size[2], cs[2]):
+        for y0 in range(0, size[1], cs[1]):
+            for x0 in range(0, size[0], cs[0]):
+                yield (x0, min(x0 + cs[0], size[0]), y0, min(y0 + cs[1], size[1]),
+                       z0, min(z0 + cs[2], size[2]))
+
+
+def count_cells(path, key, cs, size):
+    """Independent walk: number of grid cells of this chunking whose chunk file
+    exists (flat or sub-directory layout, plain or .gz)."""
+    n = 0
+    for c in _grid(cs, size):
+        flat = os.path.join(path, key, "%d-%d_%d-%d_%d-%d" % c)
+        deep = os.path.join(path, key, "%d-%d" % c[0:2], "%d-%d" % c[2:4], "%d-%d" % c[4:6])
+        if any(os.path.isfile(q) for q in (flat, flat + ".gz", deep, deep + ".gz")):
+            n += 1
+    return n
+
+
+def _read_chunking(acc, enc, key, cs, size, channels, dt, interner):
+    """Fetch and decode every chunk of one chunking with the given accessor.
+    Returns (per-chunk status list, interned index of the whole scale or 0)."""
+    sts = []
+    whole = np.zeros((channels, size[2], size[1], size[0]), dtype=dt)
+    for coords in _grid(cs, size):
+        x0, x1, y0, y1, z0, z1 = coords
+        try:
+            buf = acc.fetch_chunk(key, coords)
+        except Exception:
+            sts.append("absent")
+            continue
+        try:
+            whole[:, z0:z1, y0:y1, x0:x1] = enc.decode(buf, (x1 - x0, y1 - y0, z1 - z0))
+            sts.append("ok")
+        except Exception:
+            sts.append("unreadable")
+    return sts, (interner.add(whole) if all(t == "ok" for t in sts) else 0)
+
+
 def _empty_info():
     return {"st": "none", "txt": "", "dtype": "-", "itemsize": 0, "channels": 0}
 
@@ -372,37 +422,130 @@ def snap_dir(path, interner, url=None):
                        "dtype": dt.name, "itemsize": int(dt.itemsize), "channels": channels}
         for s, enc, (cs, size) in zip(scales, encoders, grids):
             key = s["key"]
-            sts = []
-            whole = np.zeros((channels, size[2], size[1], size[0]), dtype=dt)
             nbytes = int(np.prod(size)) * channels * dt.itemsize
             if nbytes > MAX_BYTES:
                 raise tlc.MachineryError("scale too large for the trace arithmetic: %d bytes" % nbytes)
-            for z0 in range(0, size[2], cs[2]):
-                for y0 in range(0, size[1], cs[1]):
-                    for x0 in range(0, size[0], cs[0]):
-                        x1, y1, z1 = (min(x0 + cs[0], size[0]), min(y0 + cs[1], size[1]),
-                                      min(z0 + cs[2], size[2]))
-                        coords = (x0, x1, y0, y1, z0, z1)
-                        try:
-                            buf = acc.fetch_chunk(key, coords)
-                        except Exception:
-                            sts.append("absent")
-                            continue
-                        try:
-                            a = enc.decode(buf, (x1 - x0, y1 - y0, z1 - z0))
-                            whole[:, z0:z1, y0:y1, x0:x1] = a
-                            sts.append("ok")
-                        except Exception:
-                            sts.append("unreadable")
-            vox = interner.add(whole) if all(t == "ok" for t in sts) else 0
             sharding = s.get("sharding")
-            out["scales"].append({
-                "key": key, "size": [int(v) for v in size], "chunk": [int(v) for v in cs],
-                "sharded": bool(sharding), "st": sts, "vox": vox,
-                "nstored": count_stored(path, key, sharding)})
+            sts, vox = _read_chunking(acc, enc, key, cs, size, channels, dt, interner)
+            nstored = count_stored(path, key, sharding)
+            rec = {"key": key, "size": [int(v) for v in size], "chunk": [int(v) for v in cs],
+                   "sharded": bool(sharding), "st": sts, "vox": vox, "nstored": nstored,
+                   # chunks of THIS chunking found on disk by an independent walk
+                   "ncell": nstored if sharding else count_cells(path, key, cs, size),
+                   "alt": []}
+            # further chunkings the info declares for this scale (format: chunk_sizes is a list)
+            for cs2 in ([] if sharding else s["chunk_sizes"][1:]):
+                if len(cs2) != 3 or min(cs2) < 1:
+                    continue
+                sts2, vox2 = _read_chunking(acc, enc, key, cs2, size, channels, dt, interner)
+                rec["alt"].append({"chunk": [int(v) for v in cs2], "st": sts2, "vox": vox2,
+                                   "ncell": count_cells(path, key, cs2, size)})
+            out["scales"].append(rec)
     finally:
         if acc is not None and hasattr(acc, "close"):
             atexit.unregister(acc.close)
+    return out
+
+
+# ---------------------------------------------------------------------------
+# format-level view of a sharded destination (for the reader written from the
+# format specification: spec/ShardFormat.tla SpecLookup, evaluated by TLC)
+# ---------------------------------------------------------------------------
+MAX_FMT_CHUNKS = 450
+
+
+def _cmc(grid, pos):
+    """compressed Morton code; used ONLY to know which chunk extent a stored
+    identifier has, i.e. with which shape its payload must be decoded (TLC
+    computes the identifiers itself when it looks chunks up)"""
+    nb = [max(0, (g - 1).bit_length()) for g in grid]
+    code, j = 0, 0
+    for i in range(max(nb) if nb else 0):
+        for d in range(3):
+            if (1 << i) < grid[d]:
+                code |= ((pos[d] >> i) & 1) << j
+                j += 1
+    return code
+
+
+def spec_reader_view(dst_path, src_snap, interner):
+    """Re-encode the .shard files of a sharded dataset (harness/parsers.py
+    parse_shard: the file's own index followed exactly as the format says) and
+    decode every stored payload with the package's chunk decoder.  Per scale:
+      cfg    [grid, pb, mb, sb]
+      files  abstract shard files; pay.data = <<index of the decoded payload>>
+             (0 when it does not decode), << >> for zero-length entries
+      chunks per grid position: pos, src = index of the SOURCE voxels of that
+             chunk region (cut from the source's decoded scale; 0 if the source
+             scale is not completely readable)
+    Returns [] when the dataset is not sharded / too large for the trace."""
+    from neuroglancer_scripts import chunk_encoding
+    try:
+        with open(os.path.join(dst_path, "info")) as f:
+            info = json.load(f)
+        scales = info["scales"]
+        if not scales or not all("sharding" in s for s in scales):
+            return []
+        dt = np.dtype(info["data_type"])
+        channels = int(info["num_channels"])
+    except Exception:
+        return []
+    out, total = [], 0
+    for s in scales:
+        sh, key, size, cs = s["sharding"], s["key"], s["size"], s["chunk_sizes"][0]
+        grid = [-(-size[d] // cs[d]) for d in range(3)]
+        total += grid[0] * grid[1] * grid[2]
+        if total > MAX_FMT_CHUNKS:
+            return []
+        enc = chunk_encoding.get_encoder(info, s)
+        pos_of = {}
+        for x in range(grid[0]):
+            for y in range(grid[1]):
+                for z in range(grid[2]):
+                    pos_of[_cmc(grid, (x, y, z))] = (x, y, z)
+        files = []
+        sdir = os.path.join(dst_path, key)
+        for fn in (sorted(os.listdir(sdir)) if os.path.isdir(sdir) else []):
+            if not fn.endswith(".shard"):
+                continue
+            form, _ = parsers.parse_shard(os.path.join(sdir, fn), fn[:-len(".shard")],
+                                          int(sh.get("minishard_bits", 0)),
+                                          sh.get("minishard_index_encoding", "raw"),
+                                          sh.get("data_encoding", "raw"))
+            for m in form["minis"]:
+                acc_id = 0
+                for i, pay in enumerate(m["pay"]):
+                    acc_id += parsers.unbits(m["ids"][i])
+                    if pay["st"] != "ok" or not pay["data"]:
+                        continue
+                    idx = 0
+                    p = pos_of.get(acc_id)
+                    if p is not None:
+                        lo = [p[d] * cs[d] for d in range(3)]
+                        hi = [min(lo[d] + cs[d], size[d]) for d in range(3)]
+                        try:
+                            a = enc.decode(bytes(pay["data"]), tuple(hi[d] - lo[d] for d in range(3)))
+                            idx = interner.add(np.asarray(a))
+                        except Exception:
+                            idx = 0
+                    pay["data"] = [idx]
+            files.append(form)
+        src_scale = [q for q in src_snap["scales"] if q["key"] == key]
+        src_arr = interner.raw.get(src_scale[0]["vox"]) if src_scale and src_scale[0]["vox"] else None
+        chunks = []
+        for x in range(grid[0]):
+            for y in range(grid[1]):
+                for z in range(grid[2]):
+                    lo = [x * cs[0], y * cs[1], z * cs[2]]
+                    hi = [min(lo[d] + cs[d], size[d]) for d in range(3)]
+                    si = 0
+                    if src_arr is not None and list(src_arr.shape[1:]) == [size[2], size[1], size[0]]:
+                        si = interner.add(src_arr[:, lo[2]:hi[2], lo[1]:hi[1], lo[0]:hi[0]])
+                    chunks.append({"pos": [x, y, z], "src": si})
+        out.append({"key": key, "cfg": {"grid": grid, "pb": int(sh.get("preshift_bits", 0)),
+                                        "mb": int(sh.get("minishard_bits", 0)),
+                                        "sb": int(sh.get("shard_bits", 0))},
+                    "files": files, "chunks": chunks})
     return out
 
 
@@ -610,9 +753,11 @@ def build_args(c, env):
     lay = LAYOUTS[env["lay"][c["d"]]]
     explicit = env.get("explicit", False)
     sharg = ",".join(str(v) for v in env["shard_triple"]) if env.get("shard_triple") else "1,1,0"
+    igs = ["--ignore-scaling"] if env.get("ignore_scaling") else []   # same option on every volume command
     if op == "GenInfo":
         sh = ["--sharding", sharg] if c["sh"] in SHARDING_ARG else []
-        return MODULES[op], ["--generate-info"] + sh + [f for f in lay if f != "--flat"] + [env["vol"], d]
+        return MODULES[op], (["--generate-info"] + sh + igs + [f for f in lay if f != "--flat"]
+                             + [env["vol"], d])
     if op == "GenScales":
         mx = {"one": ["--max-scales", "1"], "two": ["--max-scales", "2"]}.get(c["max"], [])
         tgt = ["--target-chunk-size", str(env["tgt"])] if env.get("tgt") else []
@@ -623,7 +768,7 @@ def build_args(c, env):
         # user does so only for a directory whose info declares sharding
         sh = ["--sharding", sharg] if (env.get("shflag", {}).get(c["d"])
                                          and _info_declares_sharding(d)) else []
-        return MODULES[op], lay + sh + [env["vol"], d]
+        return MODULES[op], lay + sh + igs + [env["vol"], d]
     if op == "Compute":
         m = ["--downscaling-method", c["m"]] if (explicit or c["m"] != "auto") else []
         return MODULES[op], lay + m + [d]
@@ -636,7 +781,7 @@ def build_args(c, env):
         return MODULES[op], lay + ["--input-orientation", c["code"]] + env["stacks"][c["code"]] + [d]
     if op == "AllInOne":
         m = ["--downscaling-method", c["m"]] if (explicit or c["m"] != "auto") else []
-        return MODULES[op], lay + _type_enc_flags(c, explicit) + m + [env["vol"], d]
+        return MODULES[op], lay + _type_enc_flags(c, explicit) + m + igs + [env["vol"], d]
     raise tlc.MachineryError("unknown op %r" % op)
 
 
@@ -655,6 +800,24 @@ def apply_hand_info(c, env):
         info["scales"][0]["sharding"] = spec
     with open(p, "w") as f:
         json.dump(info, f, indent=2)
+    return 0
+
+
+def apply_obstruct(c, env):
+    """ENVIRONMENT (harness action): a regular file occupies the path of the LAST
+    scale's directory, so that neither chunk files nor shard files of that scale
+    can be created.  Refused (exit 1) without an info or when the path exists."""
+    d = env["dirs"][c["d"]]
+    try:
+        with open(os.path.join(d, "info")) as f:
+            key = json.load(f)["scales"][-1]["key"]
+    except (OSError, ValueError, KeyError, IndexError):
+        return 1
+    p = os.path.join(d, key)
+    if os.path.lexists(p):
+        return 1
+    with open(p, "wb") as f:
+        f.write(b"not a directory\n")
     return 0
 
 
@@ -702,8 +865,74 @@ def apply_edit(c, env):
         for s in info["scales"]:
             if s.get("encoding") == "compressed_segmentation":
                 s["compressed_segmentation_block_size"] = dims
+    for cs in _extra_chunkings(c["m"]):
+        # the format allows several entries in chunk_sizes: declare one more chunking
+        for s in info["scales"]:
+            if cs not in s["chunk_sizes"]:
+                s["chunk_sizes"].append(list(cs))
     with open(p, "w") as f:
         json.dump(info, f, separators=(",", ":"), sort_keys=True)
+    return 0
+
+
+def _extra_chunkings(m):
+    """'cs8' -> [[8,8,8]]; 'cs8x8x4' -> [[8,8,4]]; 'cs8,4' -> [[8,8,8],[4,4,4]]; else []"""
+    if not m.startswith("cs"):
+        return []
+    out = []
+    for part in m[2:].split(","):
+        dims = [int(v) for v in part.split("x")]
+        out.append(dims * 3 if len(dims) == 1 else dims)
+    return out
+
+
+def apply_rechunk(c, env):
+    """Harness action (not a tool): the user re-tiles an existing unsharded
+    dataset with a script on the package's public PrecomputedIO API - every
+    completely stored scale is read through its first chunking and written again
+    with the additional chunk sizes given in c['m'] ('cs8', 'cs8x8x4', 'cs8,4'),
+    which are then listed in the info (hand edit).  This is how a dataset with
+    several chunk_sizes per scale comes into being (no tool generates one).
+    Refused (exit 1) without an info or for a sharded info."""
+    from neuroglancer_scripts import file_accessor, precomputed_io
+    d = env["dirs"][c["d"]]
+    p = os.path.join(d, "info")
+    if not os.path.isfile(p):
+        return 1
+    with open(p) as f:
+        info = json.load(f)
+    if any("sharding" in s for s in info["scales"]):
+        return 1
+    lay = LAYOUTS[env["lay"][c["d"]]]
+    acc = file_accessor.FileAccessor(d, flat="--flat" in lay, gzip="--no-gzip" not in lay)
+    old = precomputed_io.PrecomputedIO(info, acc)
+    wholes = {}
+    dt = np.dtype(info["data_type"])
+    for s in info["scales"]:
+        size = s["size"]
+        whole = np.zeros((info["num_channels"], size[2], size[1], size[0]), dtype=dt)
+        try:
+            for co in _grid(s["chunk_sizes"][0], size):
+                whole[:, co[4]:co[5], co[2]:co[3], co[0]:co[1]] = old.read_chunk(s["key"], co)
+            wholes[s["key"]] = whole
+        except Exception:
+            pass                      # scale not completely stored: only declared
+    new_info = json.loads(json.dumps(info))
+    extra = _extra_chunkings(c["m"])
+    for s in new_info["scales"]:
+        for cs in extra:
+            if cs not in s["chunk_sizes"]:
+                s["chunk_sizes"].append(list(cs))
+    with open(p, "w") as f:
+        json.dump(new_info, f, separators=(",", ":"), sort_keys=True)
+    new = precomputed_io.PrecomputedIO(new_info, acc)
+    for s in new_info["scales"]:
+        if s["key"] not in wholes:
+            continue
+        for cs in s["chunk_sizes"][1:]:
+            for co in _grid(cs, s["size"]):
+                new.write_chunk(np.ascontiguousarray(
+                    wholes[s["key"]][:, co[4]:co[5], co[2]:co[3], co[0]:co[1]]), s["key"], co)
     return 0
 
 
@@ -721,9 +950,14 @@ def run_program(workdir, prog, name="p"):
     it = Interner()
     # the input volume in the order of a decoded scale (C, Z, Y, X)
     v4 = vol if vol.ndim == 4 else vol[..., np.newaxis]
-    volidx = it.add(np.moveaxis(v4, (0, 1, 2, 3), (3, 2, 1, 0)))
+    scl = prog["vol"].get("scl")
+    # the values a volume command is documented to convert: header scaling applied
+    # (slope * stored + inter) unless --ignore-scaling is given
+    vexp = v4 if (not scl or prog.get("ignore_scaling")) else v4.astype(np.float64) * scl[0] + scl[1]
+    volidx = it.add(np.moveaxis(vexp, (0, 1, 2, 3), (3, 2, 1, 0)))
     env = {"vol": volpath, "dirs": dirs, "lay": prog["lay"], "explicit": prog.get("explicit", False),
            "urls": {}, "shflag": {}, "tgt": prog.get("tgt"), "shard_enc": prog.get("shard_enc", "gzip"),
+           "ignore_scaling": bool(prog.get("ignore_scaling")),
            "stacks": {}, "hand_info": hand_fullres_info(prog["vol"], v4 if vol.ndim == 4 else vol),
            "shard_triple": prog.get("shard_triple"),
            "shard_index_enc": prog.get("shard_index_enc", prog.get("shard_enc", "gzip"))}
@@ -757,6 +991,10 @@ def run_program(workdir, prog, name="p"):
                 rc, out, tail, args = apply_edit(c, env), "", "", ["<edit info>"]
             elif c["op"] == "HandInfo":
                 rc, out, tail, args = apply_hand_info(c, env), "", "", ["<write info_fullres.json>"]
+            elif c["op"] == "Obstruct":
+                rc, out, tail, args = apply_obstruct(c, env), "", "", ["<regular file at the last scale's path>"]
+            elif c["op"] == "Rechunk":
+                rc, out, tail, args = apply_rechunk(c, env), "", "", ["<re-tile dataset %s>" % c["m"]]
             else:
                 module, args = build_args(c, env)
                 rc, out, tail, args = run_tool(module, args, base)
@@ -764,9 +1002,12 @@ def run_program(workdir, prog, name="p"):
                     report = parse_stats(out)
                 if c["op"] == "GenInfo" and c["sh"] in SHARDING_ARG and prog.get("docs_shflag", True):
                     env["shflag"][c["d"]] = True
+            snap_before = case["events"][-1]["snap"] if case["events"] else case["init"]
             ev = {"cmd": {f: c[f] for f in FIELDS}, "exit": rc,
                   "snap": {k: snap_dir(p, it) for k, p in dirs.items()},
                   "report": report, "remote": 1 if (c["op"] == "Convert" and c["src"] in env["urls"]) else 0}
+            ev["fmt"] = (spec_reader_view(dirs[c["d"]], snap_before[c["src"]], it)
+                         if c["op"] == "Convert" and rc == 0 and c["src"] in dirs else [])
             case["events"].append(ev)
             case.setdefault("_log", []).append({"argv": [a.replace(base, ".") for a in args],
                                                 "exit": rc, "stderr": tail,
